@@ -11,7 +11,7 @@ NInit == 1 \* @NINIT@
 Exp == <<1>> \* @EXP@
 INSTANCE ClassQueue
 Traces == ndJsonDeserialize(IOEnv.TRACE_FILE)
-Fuel == 400
+Fuel == 4000
 VARIABLES t, l, g, q, div
 vars == <<t, l, g, q, div>>
 \* the implementation-shaped model's own result for the recorded call
